@@ -2,6 +2,7 @@ package checks
 
 import (
 	"math/rand"
+	"strings"
 
 	"verif/core"
 	"verif/gen"
@@ -15,7 +16,23 @@ func init() {
 	genSource = func(c *core.Ctx, i int) (string, bool) {
 		r := c.Rng
 		var prog *gen.Program
-		switch i % 5 {
+		switch (i / 3) % 6 {
+		case 5:
+			// constant expressions in positions where they are converted to another composite type
+			// (arguments, elements, map values, assignments): tight operators must stay tight
+			head := "func takes a:[]any\n    print a\nend\nfunc takesm m:{}any\n    print m\nend\nfunc vari a:[]any...\n    print a\nend\nz:[]any\nw:[][]any\n"
+			lines := []string{
+				"takes [1]+[2]", "takes [0]*3", "takes ([1 2])", "takes [1 2][:1]", "takesm {a:1}", "vari [1]+[2] [3]*2", "vari [1] [2]+[3] ([4])",
+				"print [[1]+[2] [\"a\"]]", "print {a:[1]+[2] b:[\"x\"]}", "z = [1]+[2]", "z = [[1]+[2] [3]][0]", "w = [[]]+[[1]]", "w = [[1]+[2]]*2",
+				"print [1]+[2] [3]*2 -1", "print [[1]*2 [\"s\"]+[\"t\"]] {k:[true]+[false] l:[1]}", "print z w",
+			}
+			r.Shuffle(len(lines), func(a, b int) { lines[a], lines[b] = lines[b], lines[a] })
+			src := head + strings.Join(lines[:6+r.Intn(len(lines)-6)], "\n") + "\nprint z w\n"
+			if !acceptedQuiet(src) {
+				c.Violation("generated-layout-rejected", "a program of constant expressions in converting positions is rejected", src, nil)
+				return "", false
+			}
+			return src, true
 		case 0:
 			b := c01Prelude(r)
 			for k := 0; k < 3+r.Intn(6); k++ {
